@@ -45,6 +45,10 @@ def gen_cases(tier, seed):
             o.update(include_screening=True, screening_tolerance=1e-3, max_iterations_per_step=200)
         cases.append({"device": dev, "options": o, "drive": {}, "regime": regime, "frac": float(rng.uniform(0.2, 0.9)), "steps": 150 if not scr else 40,
                       "cost": 20 if scr else 6})
+        if k % 4 == 2 or k % 6 == 5:
+            # thermalised: a first stage of 0.317 x the run length (no multiple of the step) that is not recorded; the recorded stage
+            # passes the time t = skip_time again
+            cases[-1]["therm"] = 0.317
     for k in range(2 if tier == "quick" else 10):
         # terminals PINNED at the uniform value itself (terminal_psi = 1): psi = 1 is still the stationary state
         dev = zoo.gen_device(rng, n_terminals=[2, 3][k % 2], n_holes=0, probes=0, size="small", film_kind="box", smooth=int(rng.choice([0, 10])), gamma=float([1.0, 10.0, 0.0, 1.0][k % 4]), u=5.79)
@@ -92,6 +96,8 @@ def run_case(spec):
         # a fixed step below the configured maximum: it must stay where it is
         o["dt_init"] = o["dt_max"] * (1.0 if spec.get("history") == "options_reused" else 0.5)
     o["solve_time"] = spec["steps"] * (o["dt_max"] if o["adaptive"] else o["dt_init"]) * (0.7 if o["adaptive"] else 1.0)
+    if spec.get("therm"):
+        o["skip_time"] = spec["therm"] * o["solve_time"]
     sp = dict(spec)
     sp["options"] = o
     mon = simmon.StationaryMonitor(dt_star)
@@ -224,7 +230,7 @@ def run_case(spec):
         # ... and the time steps it reports are the time steps that were taken (they grow to dt_max and stay)
         C["reported_dt_checks"] = 1
         rec_ = [float(x) for x in np.asarray(sol_.dynamics.dt)] if sol_.dynamics is not None else None
-        if rec_ != [float(d) for d in mon.dts]:
+        if rec_ != [float(d) for d in getattr(mon, "recorded_dts", [])]:
             V.append({"kind": "reported_time_steps_wrong", "mechanism": "reported_time_steps_wrong",
                       "detail": {"reported": None if rec_ is None else len(rec_), "taken": len(mon.dts), "reported_tail": None if rec_ is None else rec_[-3:], "taken_tail": mon.dts[-3:]}})
     if spec["regime"] == "stable":
